@@ -13,6 +13,6 @@ PROP = {
         ],
         "lanes": [
             native("c08"),
-            miri("c08", seeds_q=0, seeds_t=48, args={"miri-cases": 40, "miri-join": 6}),
+            miri("c08", seeds_q=0, seeds_t=32, args={"miri-cases": 32, "miri-join": 6}),
         ],
     }
